@@ -18,6 +18,7 @@ import (
 
 	"github.com/jhalter/mobius/verifh/explore"
 	"github.com/jhalter/mobius/verifh/props"
+	"github.com/jhalter/mobius/verifh/vrt"
 )
 
 var verdictOut = os.Stdout
@@ -32,6 +33,7 @@ func main() {
 	replay := flag.String("replay", "", "replay file")
 	verif := flag.String("verif", "/verif", "verification root")
 	budget := flag.Duration("budget", 0, "time budget per worker (0 = tier default)")
+	racePass := flag.Bool("racepass", false, "race-oracle pass of the thorough tier: quick-tier enumeration under the race detector, merged into the existing evidence file")
 	flag.Parse()
 
 	p := props.Lookup(*check)
@@ -107,6 +109,13 @@ func main() {
 		os.Exit(1)
 	}
 
+	workerTier := *tier
+	if *racePass {
+		workerTier = "quick"
+		if *budget > 8*time.Minute || *budget == 0 {
+			*budget = 8 * time.Minute
+		}
+	}
 	start := time.Now()
 	n := *workers
 	if p.MaxWorkers > 0 && n > p.MaxWorkers {
@@ -125,10 +134,13 @@ func main() {
 		go func(i int) {
 			defer wg.Done()
 			outf := filepath.Join(tmp, fmt.Sprintf("w%d.json", i))
-			cmd := exec.Command(os.Args[0], "-check", *check, "-tier", *tier, "-seed", fmt.Sprint(*seed),
+			cmd := exec.Command(os.Args[0], "-check", *check, "-tier", workerTier, "-seed", fmt.Sprint(*seed),
 				"-worker", fmt.Sprintf("%d/%d", i, n), "-out", outf, "-verif", *verif, "-budget", budget.String())
 			cmd.Stderr = os.Stderr
 			cmd.Env = append(os.Environ(), "GOMAXPROCS=2", "VERIF_WORKER_OUT="+outf)
+			if vrt.RaceEnabled {
+				cmd.Env = append(cmd.Env, fmt.Sprintf("GORACE=log_path=%s exitcode=0 halt_on_error=0", filepath.Join(tmp, fmt.Sprintf("race-w%d", i))))
+			}
 			err := cmd.Run()
 			b, rerr := os.ReadFile(outf)
 			if err != nil || rerr != nil {
@@ -141,9 +153,39 @@ func main() {
 		}(i)
 	}
 	wg.Wait()
+	if vrt.RaceEnabled {
+		// the race detector as a happens-before oracle over every enumerated schedule
+		logs, _ := filepath.Glob(filepath.Join(tmp, "race-w*"))
+		var all strings.Builder
+		for _, l := range logs {
+			b, _ := os.ReadFile(l)
+			all.Write(b)
+		}
+		reps := explore.ParseRaceLog(all.String())
+		var extra explore.Result
+		extra.Extra = map[string]int64{"race_reports_in_repository_code": int64(len(reps)), "race_reports_total": int64(strings.Count(all.String(), "WARNING: DATA RACE"))}
+		extra.Notes = map[string]string{}
+		var others []string
+		for _, r := range reps {
+			if !r.MapAccess {
+				// a plain data race: reported in the evidence, not a violation of a listed property
+				others = append(others, r.Sites[0]+"|"+r.Sites[1])
+				continue
+			}
+			b, _ := json.Marshal(map[string]string{"kind": "race", "note": "re-run this check with VERIF_RACE=1"})
+			extra.Violations = append(extra.Violations, explore.Violation{Signature: *check + "/data-race/" + r.Sites[0] + "|" + r.Sites[1],
+				Detail: "concurrent map access in repository code in one of the enumerated schedules (race detector with the scheduler's hand-offs hidden); the Go runtime aborts a real process on this:\n" + r.Text, Replay: b})
+		}
+		sort.Strings(others)
+		extra.Notes["other_data_races_in_repository_code"] = strings.Join(others, " ; ")
+		results = append(results, extra)
+	}
 	res := explore.Merge(results)
 	wall := time.Since(start).Seconds()
 
+	if *racePass {
+		os.Exit(finishRacePass(res, *check, *verif, wall))
+	}
 	code := finish(p, res, *check, *tier, *seed, *verif, wall, n)
 	os.Exit(code)
 }
@@ -267,6 +309,62 @@ func finish(p *props.Prop, res explore.Result, check, tier string, seed int64, v
 		fmt.Fprintln(verdictOut, "  cap:", c)
 	}
 	return code
+}
+
+// finishRacePass merges the result of the race-oracle pass into the evidence file the functional
+// pass has just written and reports race violations only (functional ones were reported already).
+func finishRacePass(res explore.Result, check, verif string, wall float64) int {
+	evPath := filepath.Join(verif, "evidence", check+".json")
+	var ev map[string]interface{}
+	if b, err := os.ReadFile(evPath); err == nil {
+		_ = json.Unmarshal(b, &ev)
+	}
+	code := 0
+	var sigs []string
+	for _, v := range res.Violations {
+		if !strings.Contains(v.Signature, "/data-race/") {
+			continue
+		}
+		sigs = append(sigs, v.Signature)
+		name := fmt.Sprintf("%s-%016x.json", check, explore.Hash(v.Signature))
+		path := filepath.Join(verif, "replays", name)
+		b, _ := json.MarshalIndent(replayFile{Property: check, Signature: v.Signature, Detail: v.Detail, Replay: v.Replay}, "", " ")
+		_ = os.WriteFile(path, b, 0644)
+		fmt.Fprintf(verdictOut, "  signature: %s\n  detail: %s\nVIOLATION property=%s replay=%s\n", v.Signature, indent(clipStr(v.Detail, 3000)), check, path)
+		code = 1
+	}
+	if res.Error != "" {
+		fmt.Fprintln(verdictOut, "ERROR: race pass is broken: "+res.Error)
+		code = 2
+	}
+	if ev != nil {
+		if cov, ok := ev["coverage"].(map[string]interface{}); ok {
+			cov["race_pass"] = map[string]interface{}{
+				"what":                                 "the quick-tier enumeration re-executed under the Go race detector with the scheduler's hand-offs hidden from it (happens-before oracle per schedule)",
+				"executions":                           res.Evaluations,
+				"race_reports_total_incl_harness":      res.Extra["race_reports_total"],
+				"race_reports_in_repository_code":      res.Extra["race_reports_in_repository_code"],
+				"concurrent_map_access_violations":     sigs,
+				"other_data_races_in_repository_code":  res.Notes["other_data_races_in_repository_code"],
+				"caps":                                 res.Caps,
+				"wall_s":                               wall,
+			}
+			if v, ok := ev["violations"].(float64); ok {
+				ev["violations"] = int(v) + len(sigs)
+			}
+			b, _ := json.MarshalIndent(ev, "", " ")
+			_ = os.WriteFile(evPath, append(b, '\n'), 0644)
+		}
+	}
+	fmt.Fprintf(verdictOut, "%s race pass: executions=%d reports-in-repo-code=%d map-access-violations=%d wall=%.1fs\n", check, res.Evaluations, res.Extra["race_reports_in_repository_code"], len(sigs), wall)
+	return code
+}
+
+func clipStr(s string, n int) string {
+	if len(s) > n {
+		return s[:n] + "…"
+	}
+	return s
 }
 
 func indent(s string) string { return strings.ReplaceAll(s, "\n", "\n    ") }
